@@ -74,6 +74,35 @@ def analyse(case, obs):
     return files
 
 
+def analyse_full(case, obs):
+    """the WHOLE plan in processing order, also for a run that ended before every file was considered: the designated
+    entries of the initial tree (C07), each with its planned destination (the plan table; unlisted entries keep their
+    name), ordered by the sort key.  None when that cannot be reconstructed (unsorted runs, links to directories,
+    filters by the tool's own gathering order)."""
+    if not case["sorted"] or fsrun.has_dir_link(case) or case["mode"] == "directory":
+        return None
+    before_kinds = {p: v[0] is None for p, v in obs["before"].items()}
+    entries = [[os.path.normpath(d), rel] for d, rel in fsrun.spec_gathered(case, before_kinds)]
+    keyed = []
+    for d, rel in entries:
+        key = d + "|" + rel
+        if key not in case["order"]:
+            return None
+        g = case["plan"].get(key)
+        src = os.path.normpath(os.path.join(d, rel))
+        if g is None:
+            dst = src
+        elif case["mode"] == "name":
+            dst = os.path.normpath(os.path.join(os.path.dirname(src), g))
+        else:
+            dst = os.path.normpath(os.path.join(d, g))
+        keyed.append((case["order"][key], len(keyed), {"src": src, "dst": dst, "dir": d}))
+    if len({k for k, _, _ in keyed}) != len(keyed):
+        return None       # ties in the sort key: the order among them is the gathering order
+    keyed.sort(key=lambda t: t[0], reverse=bool(case["invert"]))
+    return [f for _, _, f in keyed]
+
+
 def plan_is_free(files, before, mode):
     moving = [f for f in files if f["src"] != f["dst"]]
     dsts = [f["dst"] for f in moving]
@@ -150,6 +179,10 @@ def oracle_runs(case, obs):
         if case["dry"]:
             return None
     elif files is not None and not any(isinstance(v, (list, tuple)) for v in case["spec"].values()):
+        # a run that stopped has considered only the files up to that point: judge the plan as a whole
+        full = analyse_full(case, obs)
+        if full is not None and all(f in full for f in files):
+            files = full
         explicit_twice = len({f["src"] for f in files}) != len(files)
         if not explicit_twice and obs["rc"] == 1 and "already exists" in obs["err"]:
             if plan_is_free(files, before, case["mode"]):
